@@ -20,7 +20,7 @@ vloop.install_gather_wrapper()
 
 SYNC_OPS = {
     "apply", "map", "start", "cancel", "cancel_group", "cancel_all", "stop", "stop_all",
-    "lock", "unlock", "set_size", "probe_capacity", "probe_cancel", "probe_reject", "noop",
+    "lock", "unlock", "set_size", "probe_capacity", "probe_cancel", "probe_reject", "noop", "cancel_op", "new_pool",
 }
 CORO_OPS = {"flush", "gac", "until_closed"}
 
@@ -32,6 +32,14 @@ class WorkerError(Exception):
 
 
 class CallFault(Exception):
+    def __init__(self, tag):
+        super().__init__(tag)
+        self.tag = ("call", tag)
+
+
+class CallTypeFault(TypeError):
+    """what a signature mismatch at the call site raises"""
+
     def __init__(self, tag):
         super().__init__(tag)
         self.tag = ("call", tag)
@@ -213,7 +221,9 @@ class PoolWorld:
         if fault is None:
             return work
         w = self
-        fault = set(fault)
+        # entries: n -> call n raises CallFault;  ["T", n] -> call n raises a TypeError
+        type_faults = {f[1] for f in fault if isinstance(f, list)}
+        fault = {f for f in fault if not isinstance(f, list)} | type_faults
         self.skipped.setdefault(tag, set())
 
         def call(*a, **k):
@@ -222,7 +232,7 @@ class PoolWorld:
             w.point("call", None, tag)
             if n in fault:
                 w.skipped[tag].add(n)
-                raise CallFault(tag)
+                raise (CallTypeFault if n in type_faults else CallFault)(tag)
             return work(*a, **k)
 
         call._is_coroutine = _acoro._is_coroutine
@@ -523,6 +533,8 @@ class PoolWorld:
             if g.startswith("?"):
                 return True
             return g in self.reqs and g not in self.group_cancelled
+        if name == "cancel_op":
+            return pos[0] in self.drivers and not self.drivers[pos[0]].done()
         if name == "probe_capacity":
             return self.idle() and self.cb_open == 0 and not self.drivers
         when = opts.get("when")
@@ -657,6 +669,18 @@ class PoolWorld:
                 return ("ok",)
             if name == "noop":
                 return ("ok",)
+            if name == "cancel_op":
+                # the caller of a pending flush()/... is cancelled (what asyncio.wait_for does on timeout)
+                self.drivers[pos[0]].cancel()
+                return ("ok",)
+            if name == "new_pool":
+                spec = pos[0] if pos else {}
+                kw = {"name": spec["name"]} if spec.get("name") is not None else {}
+                np_ = TaskPool(pool_size=size_of(spec.get("size", "inf")), **kw)
+                self.pools.append(np_)
+                self.cfg_size.append(size_of(spec.get("size", "inf")))
+                self.pname.setdefault(str(np_), len(self.pools) - 1)
+                return ("ok", str(np_))
             if name == "probe_capacity":
                 self.terminated = True
                 for m in self.monitors:
